@@ -68,8 +68,10 @@ type sview struct {
 	Purge        map[int]int64
 	Delayed      map[int64]map[int]*big.Int
 	Bal          map[int]*big.Int
-	ReqSameBlock map[int]bool // accused by a request created in the block being executed
-	Foreign      []string     // stake records naming an address outside the universe (must stay empty)
+	IterVals     map[int]bool     // validator records ValidatorStore.Iterate enumerates (committed v_ key, not deleted in the cache)
+	Status       map[int][2]int64 // es__vss_: {isActive, height}
+	ReqSameBlock map[int]bool     // accused by a request created in the block being executed
+	Foreign      []string         // stake records naming an address outside the universe (must stay empty)
 }
 
 type stakeActors struct {
@@ -122,7 +124,7 @@ func bigOfJSON(v string) *big.Int {
 func (a *stakeActors) decodeStake(m map[string]string) *sview {
 	s := &sview{Tot: map[int]*big.Int{}, VD: map[[2]int]*big.Int{}, Eff: map[int]*big.Int{}, Bnd: map[int]*big.Int{},
 		Mat: map[int64][]svMat{}, Vals: map[int]*svRec{}, Frozen: map[int]bool{}, Req: map[int]bool{}, Purge: map[int]int64{},
-		Delayed: map[int64]map[int]*big.Int{}, Bal: map[int]*big.Int{}}
+		Delayed: map[int64]map[int]*big.Int{}, Bal: map[int]*big.Int{}, IterVals: map[int]bool{}, Status: map[int][2]int64{}}
 	rk := func(addr string, what string) (int, bool) {
 		r, ok := a.rank[addr]
 		if !ok {
@@ -183,6 +185,7 @@ func (a *stakeActors) decodeStake(m map[string]string) *sview {
 			rs, ok2 := rk(val.StakeAddress.String(), "val-stakeaddr")
 			if ok1 && ok2 {
 				s.Vals[rv] = &svRec{Staking: new(big.Int).Set(val.Staking.BigInt()), Power: val.Power, SA: rs}
+				s.IterVals[rv] = true // corrected by overlayVisible when an overlay is in play
 			}
 		case strings.HasPrefix(k, "purged_unstake_"):
 			rest := k[len("purged_unstake_"):]
@@ -218,6 +221,17 @@ func (a *stakeActors) decodeStake(m map[string]string) *sview {
 			if err := persistent.Deserialize([]byte(v), lvh); err == nil && lvh.IsFrozen() {
 				if r, ok := a.rank[k[9:]]; ok {
 					s.Frozen[r] = true
+				}
+			}
+		case strings.HasPrefix(k, "es__vss_"):
+			st := &evidence.ValidatorStatus{}
+			if err := persistent.Deserialize([]byte(v), st); err == nil {
+				if r, ok := a.rank[k[len("es__vss_"):]]; ok {
+					act := int64(0)
+					if st.IsActive {
+						act = 1
+					}
+					s.Status[r] = [2]int64{act, st.Height}
 				}
 			}
 		case strings.HasPrefix(k, "es__ark_"):
@@ -385,7 +399,7 @@ func (a *stakeActors) preLine(kind string, h, maturity int64, pre, prev *sview, 
 	parts := []string{
 		fmt.Sprintf("step %s h=%d M=%d N=%d", kind, h, maturity, a.N),
 		secAmt("tot", pre.Tot), secVD(pre.VD), secAmt("eff", pre.Eff), secAmt("bnd", pre.Bnd), secMat(pre.Mat),
-		secVals("val", pre.Vals), secVals("prev", prev.Vals), a.balSection(pre, -1, nil), secSet("frozen", pre.Frozen), secSet("req", pre.Req),
+		secVals("val", pre.Vals), secVals("prev", prev.Vals), a.balSection(pre, -1, nil), secSet("frozen", pre.Frozen), secSet("iter", pre.IterVals), secSet("req", pre.Req),
 		secPurge(pre.Purge), secDelayed(pre.Delayed), "op " + op,
 	}
 	return strings.Join(parts, " | ")
@@ -598,38 +612,43 @@ func (e *stakeExec) view() *sview {
 		}
 	}
 	s := e.A.decodeStake(m)
-	// CheckRequestExists iterates the store, and State.IterateRange enumerates the keys of the
-	// committed tree only (storage/state.go: "we can't get the key for anything that's only in
-	// the cache"): a request created earlier in the same block is not seen by the unstake guard.
-	// `Req` is the set the guard sees; the requests of this block are counted separately.
+	e.overlayVisible(s, m, true)
+	return s
+}
+
+// overlayVisible corrects the two sets that the implementation obtains by *iterating* the store.
+// State.IterateRange enumerates the keys of the committed tree only (storage/state.go: "we can't
+// get the key for anything that's only in the cache") and reads their current values:
+//   - CheckRequestExists does not see an allegation request created earlier in the same block
+//     (`Req` is what the unstake guard sees; the requests of this block go to ReqSameBlock);
+//   - ValidatorStore.Iterate (frozen-owner guard of WITHDRAW, 92417eb) does not see a validator
+//     record created in the running block (`IterVals`).
+func (e *stakeExec) overlayVisible(s *sview, m map[string]string, sameBlock bool) {
 	s.ReqSameBlock = map[int]bool{}
-	for k := range m {
-		if strings.HasPrefix(k, "es__ark_") {
-			if _, ok := e.committed[k]; !ok {
-				ar := &evidence.AllegationRequest{}
-				if err := persistent.Deserialize([]byte(m[k]), ar); err == nil {
-					if r, ok := e.A.rank[ar.MaliciousAddress.String()]; ok {
+	vis := map[int]bool{}
+	iter := map[int]bool{}
+	for k, v := range m {
+		_, committed := e.committed[k]
+		switch {
+		case strings.HasPrefix(k, "es__ark_"):
+			ar := &evidence.AllegationRequest{}
+			if err := persistent.Deserialize([]byte(v), ar); err == nil {
+				if r, ok := e.A.rank[ar.MaliciousAddress.String()]; ok {
+					if committed {
+						vis[r] = true
+					} else if sameBlock {
 						s.ReqSameBlock[r] = true
 					}
 				}
 			}
-		}
-	}
-	vis := map[int]bool{}
-	for k := range e.committed {
-		if strings.HasPrefix(k, "es__ark_") {
-			if v, ok := m[k]; ok {
-				ar := &evidence.AllegationRequest{}
-				if err := persistent.Deserialize([]byte(v), ar); err == nil {
-					if r, ok := e.A.rank[ar.MaliciousAddress.String()]; ok {
-						vis[r] = true
-					}
-				}
+		case strings.HasPrefix(k, "v_") && len(k) == 22 && committed:
+			if r, ok := e.A.rank[AddrStr([]byte(k[2:]))]; ok {
+				iter[r] = true
 			}
 		}
 	}
 	s.Req = vis
-	return s
+	s.IterVals = iter
 }
 
 // checkView = committed tree overlaid with the block cache of the mempool (check) state.
@@ -647,20 +666,7 @@ func (e *stakeExec) checkView() *sview {
 		}
 	}
 	s := e.A.decodeStake(m)
-	vis := map[int]bool{}
-	for k := range e.committed {
-		if strings.HasPrefix(k, "es__ark_") {
-			if v, ok := m[k]; ok {
-				ar := &evidence.AllegationRequest{}
-				if err := persistent.Deserialize([]byte(v), ar); err == nil {
-					if r, ok := e.A.rank[ar.MaliciousAddress.String()]; ok {
-						vis[r] = true
-					}
-				}
-			}
-		}
-	}
-	s.Req = vis
+	e.overlayVisible(s, m, false)
 	return s
 }
 
@@ -741,9 +747,9 @@ func (e *stakeExec) setMaturity(h, m int64) {
 	e.Maturity = m
 }
 
-// crashed: a panic closed the application (e.g. the fee distribution divides by a zero total
-// power, suspect S20).  Node crashes are property C18's subject: the history ends here, is
-// counted, and the steps completed so far are still checked.
+// crashed: a panic closed the application.  Node crashes are property C18's subject: the history
+// ends here, is counted (none occur since 72f5d18 / c5836bc: the generator roams down to a zero
+// total power), and the steps completed so far are still checked.
 func (e *stakeExec) crashed(where string) error {
 	e.Res.Counters["histories_aborted_by_node_panic"]++
 	e.Script = append(e.Script, "# application closed itself in "+where)
@@ -874,11 +880,33 @@ func (e *stakeExec) Block(sb stakeBlock) error {
 	// guilty verdicts observed in this EndBlock: an allegation request disappeared and its accused
 	// validator carries a suspicious record of kind BYZANTINE_FAULT frozen at this height
 	guilty := e.guiltyAt(h)
-	var gs []string
-	for _, g := range guilty {
-		gs = append(gs, fmt.Sprint(g))
+	// records that may be deleted once without power (d8b47b0): the validator did not sign the last
+	// commit and its status record (as it is before this EndBlock) is inactive for more than two
+	// blocks; both are the election's business (C10), so they are inputs of the stake model
+	signed := map[string]bool{}
+	for _, v := range b.Votes {
+		signed[AddrStr(v.Validator.Address)] = true
 	}
-	e.Ops = append(e.Ops, e.A.preLine("end", h, e.Maturity, pre, e.prev, "end "+strings.Join(gs, ",")))
+	var deletable []int
+	for _, vv := range e.A.Vals {
+		r := e.A.rank[AddrStr(vv.Key.Addr)]
+		st, ok := pre.Status[r]
+		if ok && st[0] == 0 && h > st[1]+2 && !signed[AddrStr(vv.Key.Addr)] {
+			deletable = append(deletable, r)
+		}
+	}
+	sort.Ints(deletable)
+	lst := func(l []int) string {
+		if len(l) == 0 {
+			return "-"
+		}
+		var xs []string
+		for _, x := range l {
+			xs = append(xs, fmt.Sprint(x))
+		}
+		return strings.Join(xs, ",")
+	}
+	e.Ops = append(e.Ops, e.A.preLine("end", h, e.Maturity, pre, e.prev, "end "+lst(guilty)+" "+lst(deletable)))
 	e.Impl = append(e.Impl, e.A.postLine("end", "ok", post, -1, nil))
 	e.Res.Distribution["step:end"]++
 	if len(guilty) > 0 {
@@ -906,12 +934,10 @@ func (e *stakeExec) Block(sb stakeBlock) error {
 	e.prev = cv
 	e.checkMaturity = e.Maturity
 	if (e.tainted || e.monOff) && !e.Scripted {
-		// Generated histories end with the block in which a monitor fired or the first amount
-		// outside int64 succeeded: the states that follow are corrupt (wrapped or negative voting
-		// powers), and with those the fee distribution of a later EndBlock overdraws the pool and
-		// the node exits through logger.Fatal (C18 / S20 territory) — observed e.g. after the
-		// record of a validator was deleted under a fresh stake (KF-C11-2), re-created, and then
-		// unstaked below zero.  Scripted corpus cases carry such lifecycles on deliberately.
+		// Generated histories end with the block in which a monitor fired (or, should the int64
+		// guard regress, the first amount outside int64 succeeded): the states that follow are
+		// corrupt and only produce consequences of the first failure.  Scripted corpus cases
+		// carry such lifecycles on deliberately.
 		e.stopped = true
 	}
 	return nil
